@@ -5,16 +5,25 @@ use crate::refimpl::charset::latin1_printable_char;
 use crate::refimpl::dec;
 use crate::rng::{hash64, Rng};
 use datamatrix::data::{decode_str, latin1_to_utf8, utf8_to_latin1};
-use datamatrix::{DataMatrixBuilder, SymbolList};
-
-fn case_for(s: &str, macros: bool) -> Case {
-    Case::new("str").bytes("utf8", s.as_bytes()).with("macro", macros as u8)
-}
+use super::enc_common::{builder, EncCase};
 
 pub fn eval(ctx: &mut Ctx, s: &str, macros: bool, tag: &str) {
+    let cfg = EncCase { input: vec![], list: "default".into(), mask: 63, macros, fnc1: false, eci: None, order: 0, prelude: 0, skipdef: false };
+    eval_cfg(ctx, s, &cfg, tag)
+}
+
+/// `cfg.input` is ignored; the remaining fields configure the builder on which encode_str is called
+pub fn eval_cfg(ctx: &mut Ctx, s: &str, cfg: &EncCase, tag: &str) {
     ctx.eval();
-    let case = || case_for(s, macros);
-    let res = guard(|| DataMatrixBuilder::new().with_symbol_list(SymbolList::default()).with_macros(macros).encode_str(s).map(|dm| dm.data_codewords().to_vec()));
+    let macros = cfg.macros;
+    let case = || {
+        let mut c = EncCase { input: s.as_bytes().to_vec(), ..cfg.clone() }.to_case("str");
+        c.f.insert("utf8".into(), crate::json::hex(s.as_bytes()));
+        c.f.remove("input");
+        c
+    };
+    let Some(b) = builder(cfg) else { return ctx.harness_error("bad list spec") };
+    let res = guard(|| b.encode_str(s).map(|dm| dm.data_codewords().to_vec()));
     let cw = match res {
         Err(_) => return ctx.count("encode.panic(C11)"),
         Ok(Err(_)) => return ctx.count("encode.refused"),
@@ -36,6 +45,18 @@ pub fn eval(ctx: &mut Ctx, s: &str, macros: bool, tag: &str) {
         Ok(d) => d,
         Err(msg) => return ctx.violation("stream_rejected_by_reference_decoder", &case(), msg),
     };
+    if d.fnc1_start != cfg.fnc1 {
+        return ctx.violation("fnc1_header", &case(), format!("FNC1 start requested {}, found {}", cfg.fnc1, d.fnc1_start));
+    }
+    for m in &d.latches {
+        if cfg.mask & m.bit() == 0 {
+            return ctx.violation("latch_into_disabled_mode", &case(), format!("{}", m.name()));
+        }
+    }
+    if !cfg.default_config() {
+        ctx.count("non_default_builder_config");
+    }
+    let _ = macros;
     let latin = s.chars().all(latin1_printable_char);
     if latin {
         if !d.ecis.is_empty() {
@@ -213,7 +234,14 @@ pub fn run(ctx: &mut Ctx) {
     for i in 0..n {
         let s = if i % 3 == 0 { gen_macro_string(&mut ctx.rng) } else { gen_string(&mut ctx.rng) };
         let mac = !ctx.rng.chance(1, 6);
-        eval(ctx, &s, mac, if i % 3 == 0 { "macro_strings" } else { "generated" });
+        if i % 3 == 1 {
+            let mut cfg = super::enc_common::gen_case(&mut ctx.rng, 1);
+            cfg.input.clear();
+            cfg.macros = mac;
+            eval_cfg(ctx, &s, &cfg, "generated_builder_configs");
+        } else {
+            eval(ctx, &s, mac, if i % 3 == 0 { "macro_strings" } else { "generated" });
+        }
         if i % 4 == 0 {
             let len = ctx.rng.below(40);
             let b: Vec<u8> = (0..len).map(|_| if ctx.rng.chance(1, 12) { ctx.rng.byte() } else { *ctx.rng.pick(&[0x20u8, 0x41, 0x7E, 0xA0, 0xAD, 0xFF, 0xD7, 0xF7, 0x30]) }).collect();
@@ -227,7 +255,14 @@ pub fn replay(ctx: &mut Ctx, case: &Case) {
         "str" => {
             let b = case.get_bytes("utf8");
             match String::from_utf8(b) {
-                Ok(s) => eval(ctx, &s, case.get_bool("macro"), "replay"),
+                Ok(s) => {
+                    let mut cfg = EncCase::from_case(case);
+                    if case.get("list").is_none() {
+                        cfg.list = "default".into();
+                        cfg.mask = 63;
+                    }
+                    eval_cfg(ctx, &s, &cfg, "replay")
+                }
                 Err(_) => ctx.harness_error("replay string not utf8"),
             }
         }
